@@ -88,7 +88,7 @@ pub(crate) fn valid_ident() -> &'static Regex {
         //
         // We could replace this with pomsky (regex<>pomsky : sql<>prql)
         // ^ ('*' | [ascii_lower '_$'] [ascii_lower ascii_digit '_$']* ) $
-        Regex::new(r"^((\*)|(^[a-z_\$][a-z0-9_\$]*))$").unwrap()
+        Regex::new(r"^((\*)|(^[a-z_][a-z0-9_\$]*))$").unwrap()
     })
 }
 
